@@ -297,7 +297,7 @@ func main() {
 				"ltLevelQ=max", "ltLevelQ=max-1", "ltLevelQ=lowest", "levelP=max", "levelP=max-1",
 				"ctLevel=above-lt", "ctLevel=equal-lt", "ctLevel=below-lt", "ltScale=true", "ltScale=false", "ctScale=true", "ctScale=false",
 				"evaluator=fresh", "evaluator=reused", "evaluator=late-keys", "repeat=yes", "nDiags=3", "levelP=lowest3", "nDiags=1", "nDiags=2", "nDiags=all", "checked=sequential", "checked=many1", "checked=many2", "checked=many3",
-				"N1=1", "N1=2", "N1=4", "N1=8", "N1=16", "N1=32", "bgv-t=>2^32", "many-sequence=3", "many-sequence=A,B,A", "high-precision-encoder=original", "high-precision-encoder=shallow-copy", "refusal=missing-galois-key", "encode-mismatch=superset/naive", "encode-mismatch=superset/bsgs", "encode-mismatch=subset/naive", "perm=all-of-4", "perm=family-8", "special=out-of-range-index", "special=empty-diagonal-set", "class=naive-only-diagonal-0", "class=EvaluateMany-after-giant-step", "many=no-earlier-giant-step"}
+				"N1=1", "N1=2", "N1=4", "N1=8", "N1=16", "N1=32", "bgv-t=>2^32", "many-sequence=3", "many-sequence=A,B,A", "high-precision-encoder=original", "diagonal-type=ckks/*big.Float/prec90", "diagonal-type=ckks/*bignum.Complex/prec90", "diagonal-type=ckks/float64/prec53", "diagonal-type=bgv/int64", "diagonal-type=bgv/uint64", "high-precision-encoder=shallow-copy", "refusal=missing-galois-key", "encode-mismatch=superset/naive", "encode-mismatch=superset/bsgs", "encode-mismatch=subset/naive", "perm=all-of-4", "perm=family-8", "special=out-of-range-index", "special=empty-diagonal-set", "class=naive-only-diagonal-0", "class=EvaluateMany-after-giant-step", "many=no-earlier-giant-step"}
 			for _, r := range ratioCycle {
 				e = append(e, fmt.Sprintf("ratio=%d", r))
 			}
